@@ -473,6 +473,23 @@ fn nesting_family() -> Vec<(Via, String)> {
     for t in CYCLES_SCHEMA {
         out.push((Via::Schema, t.to_string()));
     }
+    // cycles of 1..3 input objects, entered directly or through one more input object, and referred to from a directive
+    // argument, a field argument, an input field carrying a directive, or all of them
+    for len in 1..=3usize {
+        let cycle: String = (0..len).map(|k| format!("input I{k} {{ n: I{} v: Int }} ", (k + 1) % len)).collect();
+        for entry in ["I0", "E", &format!("I{}", len - 1)] {
+            let extra = if entry == "E" { "input E { e: I0 } " } else { "" };
+            for user in [
+                format!("directive @d(a: {entry}) on FIELD"),
+                format!("directive @d(a: [{entry}!]! = []) repeatable on FIELD | INPUT_FIELD_DEFINITION"),
+                format!("extend type Query {{ f(a: {entry}): Int }}"),
+                format!("directive @d(a: {entry}) on INPUT_FIELD_DEFINITION input U {{ u: Int @d(a: {{}}) w: {entry} }}"),
+                format!("directive @d(a: {entry}) on INPUT_FIELD_DEFINITION extend input I0 {{ marked: Int @d }}"),
+            ] {
+                out.push((Via::Schema, format!("type Query {{ a: Int }} {cycle}{extra}{user}")));
+            }
+        }
+    }
     for d in 1..=64usize {
         let sel = format!("query {{ me {}{} }}", "{ friends ".repeat(d), "{ id }".to_string() + &" }".repeat(d));
         out.push((Via::Op, sel.clone()));
